@@ -39,6 +39,9 @@ Proof.
   - destruct (IH x H) as [r Hr]. exists (y :: r). right. apply in_map_iff. exists (x, r). split; auto.
 Qed.
 
+Lemma anyb_existsb : forall (A : Type) (f : A -> bool) l, anyb f l = existsb f l.
+Proof. induction l as [|x l IH]; cbn [anyb existsb]; [reflexivity|]. rewrite IH. destruct (f x); reflexivity. Qed.
+
 Section LinProofs.
   Context {Op Out St : Type}.
   Variable nxt : St -> Op -> St.
@@ -58,9 +61,11 @@ Section LinProofs.
     - exists [], st. repeat split; auto.
     - discriminate.
     - exists [], st. repeat split; auto.
-    - cbn [search] in H. apply existsb_exists in H. destruct H as [[a rest] [Hin H]]. cbn [fst snd] in H.
-      apply andb_true_iff in H. destruct H as [H H3]. apply andb_true_iff in H. destruct H as [H1 H2].
-      destruct (IH _ _ H3) as (lin & st' & P & RT & SQ & F).
+    - cbn [search] in H. rewrite anyb_existsb in H. apply existsb_exists in H.
+      destruct H as [[a rest] [Hin H]]. cbn [fst snd] in H.
+      destruct (minimal a rest) eqn:H1; [|discriminate].
+      destruct (acc st (o_op a) (o_out a)) eqn:H2; [|discriminate].
+      destruct (IH _ _ H) as (lin & st' & P & RT & SQ & F).
       exists (a :: lin), st'. repeat split.
       + eapply perm_trans; [apply perm_skip; exact P|]. apply picks_perm. exact Hin.
       + cbn [rt_ok]. rewrite (minimal_perm a lin rest P), H1, RT. reflexivity.
@@ -78,7 +83,7 @@ Section LinProofs.
     - assert (Hin : In a rem) by (eapply Permutation_in; [exact P | left; reflexivity]).
       destruct rem as [|x rem']; [contradiction|].
       destruct fuel as [|f]; [cbn [length] in L; lia|].
-      cbn [search]. apply existsb_exists.
+      cbn [search]. rewrite anyb_existsb. apply existsb_exists.
       destruct (picks_in _ _ _ Hin) as [rest Hrest].
       exists (a, rest). split; [exact Hrest|]. cbn [fst snd].
       pose proof (picks_perm _ _ _ _ Hrest) as P2.
@@ -86,7 +91,7 @@ Section LinProofs.
       { eapply Permutation_cons_inv. eapply perm_trans; [exact P|]. apply Permutation_sym. exact P2. }
       cbn [rt_ok] in RT. apply andb_true_iff in RT. destruct RT as [RT1 RT2].
       cbn [seq_ok] in SQ. destruct (acc st (o_op a) (o_out a)) eqn:A; [|discriminate].
-      rewrite <- (minimal_perm a lin rest P3), RT1. cbn [andb].
+      rewrite <- (minimal_perm a lin rest P3), RT1.
       eapply IH; eauto.
       apply Permutation_length in P2. cbn [length] in *. lia.
   Qed.
@@ -403,3 +408,231 @@ Proof.
   rewrite Forall_forall in I2. destruct (I2 a Hin) as (H1 & H2 & H3). split; [exact H1|].
   destruct (a_stat a); auto. tauto.
 Qed.
+
+(* in every reachable state the read-only flags are those of the volume as loaded ... *)
+Theorem machine_flags_const : forall st0 b sched m,
+  mrun (minit st0 b) sched = Some m -> same_flags (m_vol m) st0.
+Proof.
+  intros st0 b sched m Hrun.
+  exact (inv_flags _ _ (mrun_inv st0 sched _ _ (minv_init st0 b) Hrun)).
+Qed.
+
+(* ... so, on a writable volume, the critical section of a write (sync path and worker alike) is
+   doWriteRequest: the IsReadOnly() test that Volume.step repeats is the one LEnter made *)
+Theorem machine_write_is_do_write : forall st0 b sched m n t,
+  is_read_only st0 = false -> mrun (minit st0 b) sched = Some m ->
+  step (m_vol m) (t, Write n) =
+  (fst (do_write (m_vol m) n t),
+   OWrite (w_err (snd (do_write (m_vol m) n t))) (w_unchanged (snd (do_write (m_vol m) n t)))
+          (w_size (snd (do_write (m_vol m) n t)))).
+Proof.
+  intros st0 b sched m n t Hro Hrun. destruct (machine_flags_const _ _ _ _ Hrun) as [F1 F2].
+  unfold step, store_write. unfold is_read_only in *. rewrite F1, F2, Hro.
+  destruct (do_write (m_vol m) n t) as [st' w]. reflexivity.
+Qed.
+
+(* a refused call returns without touching the volume *)
+Lemma refused_pure : forall st t,
+  (forall n, is_read_only st = true -> fst (step st (t, Write n)) = st) /\
+  (forall id c, no_write_or_delete st = true -> fst (step st (t, RawDelete id c)) = st).
+Proof.
+  intros st t. split.
+  - intros n H. unfold step, store_write. rewrite H. reflexivity.
+  - intros id c H. unfold step, store_delete. rewrite H. reflexivity.
+Qed.
+
+(* ================= Part 3: from the volume model to the register specification ================= *)
+Lemma seq_ok_vol : forall (lin : hist) st st',
+  seq_ok vol_nxt vol_acc st lin = Some st' ->
+  run st (map o_op lin) = map o_out lin /\ state_after st (map o_op lin) = st'.
+Proof.
+  induction lin as [|a lin IH]; intros st st' H; cbn [seq_ok map] in *.
+  - inversion H; subst. split; reflexivity.
+  - unfold vol_acc, vol_nxt in H. destruct (out_eqb (snd (step st (o_op a))) (o_out a)) eqn:E; [|discriminate].
+    apply out_eqb_eq in E. destruct (IH _ _ H) as [H1 H2].
+    cbn [run]. unfold state_after in *. cbn [fold_left]. destruct (step st (o_op a)) as [s1 o1]. cbn [fst snd] in *.
+    subst o1. rewrite H1. split; [reflexivity | exact H2].
+Qed.
+
+Lemma seq_ok_reg : forall (lin : hist) sp,
+  all2 match_out (spec_run sp (map o_op lin)) (map o_out lin) = true ->
+  seq_ok reg_nxt reg_acc sp lin = Some (spec_after sp (map o_op lin)).
+Proof.
+  induction lin as [|a lin IH]; intros sp H; cbn [map seq_ok]; [reflexivity|].
+  cbn [map spec_run] in H. unfold reg_acc, reg_nxt, spec_after. cbn [fold_left].
+  destruct (spec_step sp (o_op a)) as [sp1 e1]. cbn [all2] in H. apply andb_true_iff in H. destruct H as [H1 H2].
+  cbn [fst snd]. rewrite H1. apply IH. exact H2.
+Qed.
+
+Lemma no_conflict_sym : forall a b, no_conflict a b = no_conflict b a.
+Proof. intros. unfold no_conflict. apply andb_comm. Qed.
+
+Lemma pairwise_nc_perm : forall l l', Permutation l l' -> pairwise_nc l = pairwise_nc l'.
+Proof.
+  intros l l' H. induction H; cbn [pairwise_nc forallb].
+  - reflexivity.
+  - rewrite IHPermutation, (forallb_perm _ _ _ _ H). reflexivity.
+  - rewrite (no_conflict_sym x y).
+    destruct (no_conflict y x), (forallb (no_conflict y) l), (forallb (no_conflict x) l), (pairwise_nc l); reflexivity.
+  - congruence.
+Qed.
+
+Lemma needles_of_cons : forall ev evs,
+  needles_of (ev :: evs) = match op_needle (snd ev) with Some n => [n] | None => [] end ++ needles_of evs.
+Proof. reflexivity. Qed.
+
+Lemma meta_dup_pairwise : forall evs seen,
+  pairwise_nc (needles_of evs) = true ->
+  (forall n s, In n (needles_of evs) -> In s seen -> conflicts n s = false) ->
+  meta_dup seen evs = false.
+Proof.
+  induction evs as [|ev evs IH]; intros seen HP HS; cbn [meta_dup]; [reflexivity|].
+  rewrite needles_of_cons in HP, HS. destruct (op_needle (snd ev)) as [n|]; cbn [app] in HP, HS.
+  - cbn [pairwise_nc] in HP. apply andb_true_iff in HP. destruct HP as [HP1 HP2].
+    apply orb_false_iff. split.
+    + destruct (existsb (conflicts n) seen) eqn:E; [|reflexivity].
+      apply existsb_exists in E. destruct E as [s [Hs Hc]].
+      rewrite (HS n s (or_introl eq_refl) Hs) in Hc. discriminate.
+    + apply IH; [exact HP2|]. intros n' s Hn' [<-|Hs].
+      * rewrite forallb_forall in HP1. pose proof (HP1 n' Hn') as Hnc. unfold no_conflict in Hnc.
+        apply andb_true_iff in Hnc. destruct Hnc as [_ Hnc]. apply negb_true_iff in Hnc. exact Hnc.
+      * apply HS; [right; exact Hn' | exact Hs].
+  - apply IH; assumption.
+Qed.
+
+Lemma conc_ok_perm : forall evs evs', Permutation evs evs' -> conc_ok evs = true ->
+  wf_history evs' = true /\ empty_payload evs' = false /\ meta_dup [] evs' = false.
+Proof.
+  intros evs evs' P H. unfold conc_ok in H.
+  apply andb_true_iff in H. destruct H as [H H3]. apply andb_true_iff in H. destruct H as [H1 H2].
+  apply negb_true_iff in H2. repeat split.
+  - unfold wf_history in *. rewrite <- (forallb_perm _ _ _ _ P). exact H1.
+  - unfold empty_payload in *. rewrite <- (existsb_perm _ _ _ _ P). exact H2.
+  - apply meta_dup_pairwise; [|intros n s _ []].
+    rewrite <- (pairwise_nc_perm (needles_of evs) (needles_of evs')); [exact H3|].
+    unfold needles_of. apply Permutation_flat_map. exact P.
+Qed.
+
+Lemma R_init_flags : forall a b, R (init_flags a b) (spec_flags a b) [].
+Proof. intros a b. exact (R_flags init spec_init [] a b R_init). Qed.
+
+(* a history that is linearizable w.r.t. the sequential volume model is linearizable w.r.t. the
+   register specification of C01, by the SAME order, and the final volume agrees with the final
+   register state -- inside the hypotheses of C01's refinement theorem *)
+Theorem vol_lin_to_reg : forall a b (h : hist) V,
+  conc_ok (map o_op h) = true ->
+  linearizable vol_nxt vol_acc (init_flags a b) (fun st => st = V) h ->
+  linearizable reg_nxt reg_acc (spec_flags a b) (agrees V) h.
+Proof.
+  intros a b h V Hc (lin & st' & P & RT & SQ & ->).
+  destruct (conc_ok_perm _ _ (Permutation_map o_op (Permutation_sym P)) Hc) as (Hwf & He & Hm).
+  destruct (seq_ok_vol _ _ _ SQ) as [Hrun Hst].
+  pose proof (R_init_flags a b) as HR0.
+  exists lin, (spec_after (spec_flags a b) (map o_op lin)). repeat split; auto.
+  - apply seq_ok_reg. rewrite <- Hrun. eapply refines_gen; eauto.
+  - intros id c t. pose proof (reach_R _ _ _ _ HR0 Hwf He Hm) as HR. rewrite Hst in HR.
+    assert (OK : ev_ok (seen_after [] (map o_op lin)) (t, RawRead id c false)) by (split; [reflexivity | exact I]).
+    destruct (step_R _ _ _ (t, RawRead id c false) HR OK) as [M _]. exact M.
+Qed.
+
+(* ---- C38, with respect to the register specification ---- *)
+Theorem machine_linearizable_reg : forall a b stop sched m,
+  mrun (minit (init_flags a b) stop) sched = Some m -> complete m = true ->
+  conc_ok (map o_op (history m)) = true ->
+  linearizable reg_nxt reg_acc (spec_flags a b) (agrees (m_vol m)) (history m).
+Proof.
+  intros a b stop sched m Hrun Hc Hok. apply vol_lin_to_reg; [exact Hok|].
+  eapply machine_linearizable; eauto.
+Qed.
+
+(* ---- the checkers used by the correspondence check ---- *)
+Theorem lin_check_vol_sound : forall fd fn (h : hist),
+  lin_check_vol fd fn h = true ->
+  linearizable vol_nxt vol_acc init (fun st => vol_final fd fn st = true) h.
+Proof. intros fd fn h. apply lin_check_sound. auto. Qed.
+
+Theorem lin_check_vol_complete : forall fd fn (h : hist),
+  linearizable vol_nxt vol_acc init (fun st => vol_final fd fn st = true) h ->
+  lin_check_vol fd fn h = true.
+Proof. intros fd fn h. apply lin_check_complete. auto. Qed.
+
+Theorem lin_check_reg_sound : forall fr (h : hist),
+  lin_check_reg fr h = true ->
+  linearizable reg_nxt reg_acc spec_init (fun sp => agrees_on fr sp = true) h.
+Proof. intros fr h. apply lin_check_sound. auto. Qed.
+
+Theorem lin_check_reg_complete : forall fr (h : hist),
+  linearizable reg_nxt reg_acc spec_init (fun sp => agrees_on fr sp = true) h ->
+  lin_check_reg fr h = true.
+Proof. intros fr h. apply lin_check_complete. auto. Qed.
+
+(* what the machine can produce is accepted by the checker: reads made after the run (at clock 0)
+   and the final .dat size / needle map entries included *)
+Definition read_after (st : vol) (x : N * N) : N * N * out :=
+  (fst x, snd x, snd (step st (0, RawRead (fst x) (snd x) false))).
+
+Theorem machine_admitted : forall stop sched m keys fn,
+  mrun (minit init stop) sched = Some m -> complete m = true ->
+  forallb (nm_entry_eqb (m_vol m)) fn = true ->
+  lin_check_vol (dat_end (m_vol m)) fn (history m) = true /\
+  (conc_ok (map o_op (history m)) = true ->
+   lin_check_reg (map (read_after (m_vol m)) keys) (history m) = true).
+Proof.
+  intros stop sched m keys fn Hrun Hc Hfn. split.
+  - apply lin_check_vol_complete. eapply linearizable_weaken; [|eapply machine_linearizable; eauto].
+    cbv beta. intros s ->. unfold vol_final. rewrite N.eqb_refl, Hfn. reflexivity.
+  - intro Hok. apply lin_check_reg_complete.
+    eapply linearizable_weaken; [|exact (machine_linearizable_reg false false stop sched m Hrun Hc Hok)].
+    cbv beta. intros sp Hag. unfold agrees_on. apply forallb_forall.
+    intros x Hx. apply in_map_iff in Hx. destruct Hx as [[id c] [<- _]]. unfold read_after. cbn [fst snd].
+    apply Hag.
+Qed.
+
+(* ================= Part 4: witnesses ================= *)
+Definition final_of (stop : bool) (sched : list label) : mstate :=
+  match mrun (minit init stop) sched with Some m => m | None => minit init stop end.
+
+(* without the non-empty-payload hypothesis (C01 finding 0) the register statement fails: a
+   sequential schedule, a write of zero bytes with cookie 5, then a read with cookie 6 *)
+Definition sched_empty : list label :=
+  [LInv 0 (CWrite (tombstone 1 5) false); LEnter 0 0; LApply 0 0; LRes 0;
+   LInv 1 (CRead 1 6 false); LEnter 1 0; LApply 1 0; LRes 1].
+
+Lemma register_refuted :
+  exists stop sched m,
+    mrun (minit init stop) sched = Some m /\ complete m = true /\
+    wf_history (map o_op (history m)) = true /\ pairwise_nc (needles_of (map o_op (history m))) = true /\
+    ~ linearizable reg_nxt reg_acc spec_init (fun _ => True) (history m).
+Proof.
+  exists false, sched_empty, (final_of false sched_empty).
+  split; [vm_compute; reflexivity|]. split; [vm_compute; reflexivity|].
+  split; [vm_compute; reflexivity|]. split; [vm_compute; reflexivity|].
+  intro H. apply (lin_check_complete reg_nxt reg_acc spec_init (fun _ => True) (fun _ => true)) in H; [|auto].
+  vm_compute in H. discriminate.
+Qed.
+
+(* non-vacuity: both write paths, a batch of two whose order in the channel is not the order
+   of the invocations, a read overlapping the batch, a delete, a second key *)
+Definition ex_needle (id cookie b : N) : needle :=
+  {| n_id := id; n_cookie := cookie; n_data := [b]; n_flags := 0; n_name := []; n_mime := []; n_pairs := [];
+     n_lastmod := 0; n_ttl := (0, 0) |}.
+
+Definition sched_example : list label :=
+  [LInv 0 (CWrite (ex_needle 1 5 65) true); LInv 1 (CWrite (ex_needle 1 5 66) true); LInv 2 (CRead 1 5 false);
+   LEnter 0 0; LEnter 1 0; LSend 1; LSend 0; LRecv; LDecide; LRecv; LDecide; LEnter 2 0; LLock;
+   LWApply 0; LInv 4 (CWrite (ex_needle 2 7 67) true); LWApply 0; LSync; LSubmit; LRes 1; LSubmit; LUnlock;
+   LApply 2 0; LRes 0; LRes 2; LInv 3 (CDelete 1 5); LEnter 3 0; LApply 3 0; LRes 3;
+   LStop; LEnter 4 0; LSend 4; LRecv; LDecide; LLock; LWApply 0; LSync; LSubmit; LUnlock; LRes 4;
+   LInv 5 (CRead 1 5 false); LInv 6 (CRead 2 7 false); LEnter 6 0; LEnter 5 0; LApply 6 0; LApply 5 0; LRes 5; LRes 6].
+
+Lemma example_ok :
+  let m := final_of true sched_example in
+  mrun (minit init true) sched_example = Some m /\ complete m = true /\
+  conc_ok (map o_op (history m)) = true /\
+  map (fun a => (o_id a, o_inv a, o_res a)) (history m) =
+    [(5, 39, 45); (6, 40, 46); (4, 14, 38); (3, 24, 27); (2, 2, 23); (0, 0, 22); (1, 1, 18)] /\
+  map (fun a => match o_out a with ORead e _ v => Some (err_eqb e ENone, v_data v) | _ => None end) (history m) =
+    [Some (false, []); Some (true, [67]); None; None; Some (true, [65]); None; None] /\
+  lin_check_reg (map (read_after (m_vol m)) [(1, 5); (2, 7)]) (history m) = true /\
+  lin_check_vol (dat_end (m_vol m)) [] (history m) = true.
+Proof. vm_compute. repeat split; reflexivity. Qed.
